@@ -173,6 +173,9 @@ func (r *MetricRegistry) RegisterDistribution(
 		ID = strings.TrimPrefix(ID, ".")
 	}
 
+	r.mu.Lock()
+	defer r.mu.Unlock()
+
 	// only add once
 	if l, ok := r.registeredListeners[ID]; ok {
 		return l
@@ -196,6 +199,9 @@ func (r *MetricRegistry) RegisterTiming(
 		ID = strings.TrimPrefix(ID, ".")
 	}
 
+	r.mu.Lock()
+	defer r.mu.Unlock()
+
 	// only add once
 	if l, ok := r.registeredListeners[ID]; ok {
 		return l
@@ -218,6 +224,9 @@ func (r *MetricRegistry) RegisterCount(
 	if strings.HasPrefix(ID, ".") {
 		ID = strings.TrimPrefix(ID, ".")
 	}
+
+	r.mu.Lock()
+	defer r.mu.Unlock()
 
 	// only add once
 	if l, ok := r.registeredListeners[ID]; ok {
